@@ -88,7 +88,7 @@ def bounded_task():
     return Task(f"{PROP}.Bd.loaders", PROP, "real loaders", run)
 
 
-def argparse_task():
+def argparse_task(PROP=PROP, only=None, replay=None):
     """the command line overrides a file value only where an option is *present*: convert_types_from_commandarguments treats every value that is not None as given.  So every
     argument declared in get_command_line_arguments must yield None when absent: argparse does that for `store` / `append` actions without a default, and for the
     store_true / store_false switches only with an explicit default=None."""
@@ -107,6 +107,8 @@ def argparse_task():
             action = kw["action"].value if "action" in kw and isinstance(kw["action"], ast.Constant) else "store"
             if action in ("version", "help") or (names and not names[0].startswith("-")):
                 continue            # no option value / the positional project file
+            if only and not any(n.lstrip("-") in only for n in names):
+                continue
             if "default" in kw:
                 ok = isinstance(kw["default"], ast.Constant) and kw["default"].value is None
             else:
@@ -115,13 +117,33 @@ def argparse_task():
                    target="ford.get_command_line_arguments", desc=f"{'/'.join(names)} (action {action}): argparse yields None when the option is not on the command line")
             if not ok:
                 from bounded import c15
-                bad = c15.argv_case()
+                bad = c15.argv_case() if replay is None else None
                 r.witness = {"argument": names, "action": action, "default": ast.unparse(kw["default"]) if "default" in kw else "<argparse default for the action>"}
                 r.detail = "an absent switch yields a non-None value, which overrides the value of the settings file"
-                r.replay = {"confirmed": bool(bad), "input": "ford <project file>   (no options)", "actual": repr(bad[:2])[:400], "expected": "file values kept", "how": "ford.initialize() with a real argv"} if bad else None
+                r.replay = replay() if replay is not None else {"confirmed": bool(bad), "input": "ford <project file>   (no options)", "actual": repr(bad[:2])[:400], "expected": "file values kept", "how": "ford.initialize() with a real argv"} if bad else None
             out.append(r)
         return out
     return Task(f"{PROP}.S.argparse", PROP, "ford.get_command_line_arguments", run)
+
+
+def from_string_task():
+    """the project-file spelling of an extra file type is `extension comment [lexer]`, the parts separated by white space - any amount of it (columns are commonly aligned):
+    ExtraFileType.from_string takes the string apart with `str.split()` without an argument"""
+    def run():
+        import ast
+        oid = f"{PROP}.S.ExtraFileType.from_string.parts_are_separated_by_any_white_space"
+        fn = loader.find_def("ford.settings", "ExtraFileType.from_string")
+        splits = [c for c in ast.walk(fn) if isinstance(c, ast.Call) and isinstance(c.func, ast.Attribute) and c.func.attr in ("split", "rsplit", "partition")]
+        ok = len(splits) == 1 and splits[0].func.attr == "split" and not splits[0].args and not splits[0].keywords
+        r = OR(id=oid, status=PROVED if ok else REFUTED, kind="S", role="pre", backend="ast", target="ford.settings.ExtraFileType.from_string",
+               desc=f"`{ast.unparse(splits[0]) if splits else '?'}`: split on runs of white space (blanks, tabs), as the TOML table form needs no separators at all")
+        if not ok:
+            from bounded import c15
+            bad = c15.extra_cases()
+            r.detail = "entries with more than one blank (or a tab) between their parts are misread or rejected, while the same entries as TOML tables are accepted"
+            r.replay = {"confirmed": True, "input": "extra_filetypes: inc  !  /  c    //  c  /  h<TAB>//<TAB>cpp", "actual": repr(bad[:1])[:400], "expected": "the same three file types as from the TOML tables", "how": "real loaders: project-file metadata vs fpm.toml"} if bad else None
+        return [r]
+    return Task(f"{PROP}.S.from_string", PROP, "ford.settings.ExtraFileType.from_string", run)
 
 
 def build(tier, seed):
@@ -129,7 +151,7 @@ def build(tier, seed):
     def _meta():
         return metadata.meta_preprocessor(PROP)
     _meta.__name__ = "meta_preprocessor"
-    tasks = [a_task(PROP, settingsc.parse_to_dict), a_task(PROP, _meta), order_task(), argparse_task(), bounded_task(),
+    tasks = [a_task(PROP, settingsc.parse_to_dict), a_task(PROP, _meta), order_task(), argparse_task(), from_string_task(), bounded_task(),
              Task(f"{PROP}.B.meta_patterns", PROP, "META_RE / META_MORE_RE", lambda: metadata.rx_obligations(PROP))]
     meta = {
         "trusted_base": TRUSTED_BASE,
